@@ -102,6 +102,27 @@ def f2_decisions():
             {"*": [OK, KO], "a": [["succeeded", "x"], ["succeeded", "y"], ["succeeded", "z"], KO]},
         )
     )
+    out.append(
+        (
+            "decide-result-falsy",
+            WF(
+                {
+                    "a": T(
+                        [
+                            N("<% succeeded() and result() = 0 %>", "b"),
+                            N("<% succeeded() and result() = 1 %>", "c"),
+                            N("<% succeeded() and result() = '' %>", "d"),
+                        ]
+                    ),
+                    "b": T(),
+                    "c": T(),
+                    "d": T(),
+                }
+            ),
+            {"*": [OK], "a": [["succeeded", 0], ["succeeded", 1], ["succeeded", ""], ["succeeded", None],
+                              ["succeeded", []], ["failed", 0]]},
+        )
+    )
     return out
 
 
@@ -699,6 +720,12 @@ def f6_defs(tier):
     lw["tasks"]["l0"]["next"][0]["publish"].append({"v": RES})
     lw["output"] = [{"v": "<% ctx(v) %>"}, {"n": "<% ctx(n) %>"}]
     out.append(("loop-publish", lw))
+    # falsy results are values like any other
+    out.append(("falsy-results", WF({
+        "a": T([N(S, "b", publish=[("v", RES)])]),
+        "b": T([N(S, "c", publish=[("u", "<% ctx(v) %>")])]),
+        "c": T()}, vars=V, output=OUT), {"*": [["succeeded", 0], ["succeeded", False], ["succeeded", ""],
+                                                 ["succeeded", []], ["succeeded", {}], ["succeeded", 0.0]]}))
     # dictionary-valued variable republished downstream (nested containers)
     out.append(("dict-republish", WF({
         "a": T([N(S, "b", publish=[("x", {"b": RES})])]),
@@ -717,7 +744,10 @@ def f6_defs(tier):
 
 
 def f6_publish(tier):
-    return [scn("F6/" + n, wf, "F6", outcomes=UNIQ) for n, wf in f6_defs(tier)]
+    out = []
+    for d in f6_defs(tier):
+        out.append(scn("F6/" + d[0], d[1], "F6", outcomes=d[2] if len(d) > 2 else UNIQ))
+    return out
 
 
 # ----------------------------------------------------------------------------- fixed outcome assignments (C08)
